@@ -32,6 +32,12 @@ def obligations(tier, seed):
             for j, (kind, opts) in enumerate(GRID_Q):
                 if (i + j) % 2 == 0 or sid in ("p2_plain_then_d", "ret_only", "p1_kwargs"):
                     obs.append(mk_ob("rt", "rt", kind, sid, opts, tier, funcs=FUNCS))
+        for kind, o in GRID_Q[2:]:
+            ob = mk_ob("pair", "rt", kind, "p1_bool_b", o, tier, funcs=FUNCS)
+            ob.name = "pair_%s_bool_then_float" % kind
+            ob.body = ob.body.replace("H.rt(%r, 'p1_bool_b', " % kind, "H.pair(%r, 'p1_bool_b', 'p1_optfloat_z', " % kind).replace("b=b", "p='the a', b=b")
+            ob.bounds = "two round trips in one process: bool default (symbolic) then Optional[float] = 0.0; " + ob.bounds
+            obs.append(ob)
         obs.append(mk_ob("text", "rt", "function", "p1_int_d", GRID_Q[0][1], tier, extra=", text=True", kind="F", fixed={"p": "the a b"}, str_alpha="STR_T", funcs=FUNCS))
         obs.append(mk_ob("text", "rt", "method", "p1_str_s", GRID_Q[1][1], tier, extra=", text=True", kind="F", fixed={"p": "the a b"}, str_alpha="STR_T", funcs=FUNCS))
     else:
